@@ -23,7 +23,8 @@
 //! name), th the complete table listing (every action and goto cell) under a canonical (BFS,
 //! symbols sorted) renumbering of the states, rawh the same with the implementation's own state
 //! numbers.  GVH_C20_FULL=1 appends the listings themselves.
-//! REFUSED = the documented "not big enough" panic or a size assertion of a constructor.
+//! REFUSED = the documented "StorageT is not big enough …" panic (or the lexer's documented try_from message); every other
+//! construction panic -- a bare `assertion failed` included -- is OTHERPANIC.
 use gvh::common::{hex, unhex, yacckind, Tree};
 use gvh::util::*;
 use std::fmt::Write;
@@ -60,11 +61,12 @@ fn clean(m: &str) -> String {
     m.replace('\n', " ").replace('|', "/").replace(';', ",")
 }
 
-/// class of a construction panic
+/// class of a construction panic: REFUSED only for the DOCUMENTED refusals -- grammar.rs / pager.rs / stategraph.rs /
+/// statetable.rs "StorageT is not big enough to store …" and the lexer's try_from message.  Anything else, in particular a
+/// bare `assertion failed: …` of a constructor (the size asserts StateGraph::new / StateTable::new had before /repo
+/// 394c6e3), is OTHERPANIC; checks/C20.py (SIZE_ASSERT_FIXED) decides what an `assertion failed: <size check>` means.
 fn refusal(m: &str) -> String {
-    let size_assert = m.starts_with("assertion failed: states.len() <")
-        || m.starts_with("assertion failed: sg.all_states_len().as_storaget() <");
-    if m.contains("not big enough") || size_assert || m.contains("exceeds the type's maximum value") {
+    if m.contains("not big enough") || m.contains("exceeds the type's maximum value") {
         format!("REFUSED {}", clean(m))
     } else {
         format!("OTHERPANIC {}", clean(m))
